@@ -146,6 +146,9 @@ class Runtime:
             rec["dec"] = effective_decision(nd, raw)
         return decode_decision(nd, raw)
 
+    async def ayield(self):
+        await asyncio.sleep(0)
+
     def handler(self, path, args):
         idx, _ = self._enter(path, args)
         self._maybe_fail(path, idx, args)
@@ -202,7 +205,7 @@ def _mk_callable(rt, path, nd, entry):
     params = ", ".join((f"{p}=OBJ" if dv.get(p) == "~obj" else f"{p}={IR.pyval(dv[p])!r}" if p in dv else f"{p}='dflt.{p}'") if p in dflt else p for p in sig)
     argt = "(" + "".join(f"({p!r}, {p}), " for p in orig) + ")"
     fname = nd.get("fname", nd["name"])
-    is_async = nd["is_async"] and entry == "call"
+    is_async = nd["is_async"] and entry in ("call", "handler")     # an interrupt's handler may be `async def` too
     is_gen = nd["fn"] == "gen" and entry == "call"
     if is_gen and is_async:        # async generator: the runner collects the yielded items into a list
         src = f"async def {fname}({params}):\n    r = await RT.acall({path!r}, {argt})\n    yield r + '#0'\n    yield r + '#1'\n"
@@ -210,6 +213,8 @@ def _mk_callable(rt, path, nd, entry):
         src = f"def {fname}({params}):\n    r = RT.call({path!r}, {argt})\n    yield r + '#0'\n    yield r + '#1'\n"
     elif is_async and nd.get("coro"):      # a plain function that returns a coroutine
         src = f"def {fname}({params}):\n    return RT.acall({path!r}, {argt})\n"
+    elif is_async and entry == "handler":
+        src = f"async def {fname}({params}):\n    await RT.ayield()\n    return RT.handler({path!r}, {argt})\n"
     elif is_async:
         src = f"async def {fname}({params}):\n    return await RT.acall({path!r}, {argt})\n"
     else:
